@@ -9,6 +9,8 @@ from . import xh
 
 
 def main():
+    if os.environ.get("VERIF_REPO"):
+        sys.path.insert(0, os.environ["VERIF_REPO"])
     ap = argparse.ArgumentParser()
     ap.add_argument("prop")
     ap.add_argument("--tier", default=os.environ.get("VERIF_TIER", "quick"), choices=["quick", "thorough"])
